@@ -28,8 +28,24 @@ class FFTPricer:
         self.b = -model.x0_value() + np.pi / self.eta
 
     def _sufficient_condition(self, t: float) -> None:
-        moment = self.cf(t=t, x=-1j * (1 + self.alpha))
-        if moment.real > 1e10:
+        # E[S_t^(1+alpha)] must be finite.  The closed-form characteristic function stays finite when it is
+        # continued beyond the strip where the moments exist (e.g. a negative or complex "moment"), so the moment
+        # generating function u -> E[S_t^u] is checked on [0, 1+alpha]: finite, real, positive and log-convex.
+        us = np.linspace(0.0, 1 + self.alpha, 11)
+        with np.errstate(all="ignore"):
+            try:
+                moments = np.array([complex(self.cf(t=t, x=-1j * u)) for u in us])
+            except ZeroDivisionError:
+                moments = np.array([np.nan])
+        met = bool(
+            np.all(np.isfinite(moments))
+            and np.all(moments.real > 0)
+            and np.all(np.abs(moments.imag) <= 1e-9 * np.abs(moments.real))
+        )
+        if met:
+            log_m = np.log(moments.real)
+            met = bool(np.all(np.diff(log_m, 2) >= -1e-9 * (1 + np.abs(log_m[1:-1]))))
+        if not met or moments[-1].real > 1e10:
             raise ValueError(
                 "sufficient condition on alpha probably not met in the fft pricer"
             )
